@@ -308,6 +308,30 @@ func (k *kase) checkLedger(when string, lv []live) bool {
 		return true
 	}
 	seen := map[string]bool{}
+	// a port of a live proxy that the manager lists as free again (double release): one finding, not two
+	for _, proto := range []string{"tcp", "udp"} {
+		for _, x := range missing {
+			if !strings.HasPrefix(x, proto+"used:") {
+				continue
+			}
+			free := proto + "free:" + strings.TrimPrefix(x, proto+"used:")
+			for i, y := range extra {
+				if y == free {
+					k.c.Violation(fmt.Sprintf("port-of-live-proxy-back-in-free-set-%s-%s", k.kind, k.path),
+						"%s (%s, %s): the port manager lists %s of a live proxy as free (%s is gone): the next registration may be given a port that is in use", when, k.kind, k.path, free, x)
+					extra = append(extra[:i:i], extra[i+1:]...)
+					var m2 []string
+					for _, z := range missing {
+						if z != x {
+							m2 = append(m2, z)
+						}
+					}
+					missing = m2
+					break
+				}
+			}
+		}
+	}
 	for _, x := range extra {
 		key := fmt.Sprintf("leftover-%s-%s-%s", category(x), k.kind, k.path)
 		if !seen[key] {
